@@ -47,6 +47,7 @@ func newRegistry() *Registry {
 		"(declare-datatypes ((Iface 0)) (((mk-iface (i-tag Int) (i-ref Int) (i-str String) (i-bv "+bv64+")))))",
 		"(declare-fun errclass (Int) (_ BitVec 32))",
 		"(declare-fun tag-is-ptr (Int) Bool)",
+		"(declare-fun iface-slice-off (Iface) "+bv64+")",
 		"(assert (= (errclass 0) #x00000000))",
 	)
 	return r
